@@ -61,10 +61,11 @@ extern "C" int LLVMFuzzerTestOneInput(const uint8_t *data, size_t size) {
     const uint8_t *h = data;
     unsigned opts = h[0] & 7;
     int src = ((h[0] >> 4) & 3) == 3 ? 1 : ((h[0] >> 4) & 3) == 2 ? 2 : 0;
+    const int src_arg = src | ((h[0] & 0xC0) == 0xC0 ? 8 : 0);        // 1 in 4: the deprecated *_with_seg_cache constructor of the same kind
     Exact fbuf(data + HDR, size - HDR);
     FaceBox fb;
     hooks().reset();
-    make_face(fb, fbuf.p, fbuf.n, src, opts);
+    make_face(fb, fbuf.p, fbuf.n, src_arg, opts);
     if (!fb.face) {
         S.add("face_rejected");
         if (fb.mf && src == 0 && fb.mf->outstanding() && reported("C16")) fz::violate("C16", "tables-outstanding-after-failed-make_face");
